@@ -141,15 +141,27 @@ fn child_artefacts(c: &Case) -> Option<Artefacts> {
 
 pub fn check(c: &Case, others: &[Case], nproc: usize) -> Checked {
     let mut res = Checked { violations: vec![], compiled: false, processes: 0, history: 0, child_failed: 0 };
+    // in half of the cases (and for all projects) the other programs are compiled *before* this process
+    // compiles the case for the first time: whatever they leave behind (caches keyed too coarsely, tables
+    // that are never reset) then meets a first compilation, and the fresh processes below are the reference
+    let history_first = !others.is_empty() && (c.origin.as_deref().is_some_and(|o| o.starts_with("project:")) || c.input_seed & 1 == 1);
+    if history_first {
+        for o in others {
+            let _ = artefacts(o);
+            res.history += 1;
+        }
+    }
     let a1 = artefacts(c);
     res.compiled = a1.accepted.contains("ok");
     let a2 = artefacts(c);
     for d in a1.diff(&a2) {
         res.violations.push((format!("{d}-differs/back-to-back-in-one-process"), format!("{a1:?} vs {a2:?}")));
     }
-    for o in others {
-        let _ = artefacts(o);
-        res.history += 1;
+    if !history_first {
+        for o in others {
+            let _ = artefacts(o);
+            res.history += 1;
+        }
     }
     let a3 = artefacts(c);
     for d in a1.diff(&a3) {
